@@ -166,8 +166,14 @@ def _is_simple_arg(e: ast.AST) -> bool:
     return False
 
 
+def _is_static(fn: ast.FunctionDef) -> bool:
+    return len(fn.decorator_list) == 1 and isinstance(fn.decorator_list[0], ast.Name) and fn.decorator_list[0].id == "staticmethod"
+
+
 def _bind(fn: ast.FunctionDef, call: ast.Call, bound_self: bool = False) -> Optional[Dict[str, ast.AST]]:
     a = fn.args
+    if _is_static(fn):
+        bound_self = False  # self._m(x) on a static method: no receiver formal
     if bound_self:
         # self._m(x): the first formal is the receiver
         if not a.args:
@@ -317,9 +323,12 @@ class _Expander(ast.NodeTransformer):
             if kind == "return":
                 return ast.Return(value=rv)
             return ast.Expr(value=rv)
-        new_body = [copy.deepcopy(y) for y in body] if is_proc else _replace_tail([copy.deepcopy(y) for y in body], mk)
-        for x in new_body:
-            out.append(sub.visit(x))
+        # formals / clashing locals are substituted in the helper's own statements first; the caller's targets are attached
+        # afterwards (they are the caller's names, not the helper's, even when they are spelled the same)
+        new_body = [sub.visit(copy.deepcopy(y)) for y in body]
+        if not is_proc:
+            new_body = _replace_tail(new_body, mk)
+        out.extend(new_body)
         for x in out:
             ast.copy_location(x, x if hasattr(x, "lineno") else st)
             ast.fix_missing_locations(x)
@@ -377,7 +386,47 @@ class _Expander(ast.NodeTransformer):
         setattr(st, field, _Rep().visit(val))
         return pre + [st]
 
+    def _comprehension_to_loop(self, node: ast.Assign):
+        """`T = [elt for x in it if c]` whose element calls a new statement helper: the equivalent explicit loop
+        (`T = []; for x in it: if c: T.append(elt)`), so that the helper's body can be placed inside it."""
+        v = node.value
+        if not (isinstance(v, ast.ListComp) and len(v.generators) == 1 and not v.generators[0].is_async
+                and len(node.targets) == 1 and isinstance(node.targets[0], ast.Name)):
+            return None
+        g = v.generators[0]
+        inner = [c for part in [v.elt] + list(g.ifs) for c in ast.walk(part) if isinstance(c, ast.Call) and _callee_key(c) is not None
+                 and self.kinds.get(_callee_key(c)) == "stmt"]
+        if not inner:
+            return None
+        tname = node.targets[0].id
+        if any(isinstance(n, ast.Name) and n.id == tname for n in ast.walk(v)):
+            return None
+        bound = {n.id for n in ast.walk(g.target) if isinstance(n, ast.Name)}
+        rename = {b: self._fresh(b) for b in bound if b in self.scope_names}
+        sub = _Subst({}, rename)
+        tgt, elt, ifs = sub.visit(copy.deepcopy(g.target)), sub.visit(copy.deepcopy(v.elt)), [sub.visit(copy.deepcopy(c)) for c in g.ifs]
+        for b in bound:
+            self.scope_names.add(rename.get(b, b))
+        app = ast.Expr(value=ast.Call(func=ast.Attribute(value=ast.Name(id=tname, ctx=ast.Load()), attr="append", ctx=ast.Load()),
+                                      args=[elt], keywords=[]))
+        body = [app]
+        for c in reversed(ifs):
+            body = [ast.If(test=c, body=body, orelse=[])]
+        init = ast.Assign(targets=[ast.Name(id=tname, ctx=ast.Store())], value=ast.List(elts=[], ctx=ast.Load()))
+        loop = ast.For(target=tgt, iter=copy.deepcopy(g.iter), body=body, orelse=[])
+        for x in (init, loop):
+            ast.copy_location(x, node)
+            ast.fix_missing_locations(x)
+        return [init, loop]
+
     def visit_Assign(self, node: ast.Assign):
+        lp = self._comprehension_to_loop(node)
+        if lp is not None:
+            out = []
+            for x in lp:
+                r_ = self.visit(x)
+                out.extend(r_ if isinstance(r_, list) else [r_])
+            return out
         r = self._expand_stmt(node, node.value, "assign", node.targets)
         if r is None:
             r = self._hoist(node, "value")
@@ -420,7 +469,7 @@ def expand_new_private_helpers(tree: ast.Module, module_name: str) -> ast.Module
         if isinstance(c, ast.ClassDef):
             mh = {st.name: st for st in c.body if isinstance(st, ast.FunctionDef) and st.name.startswith("_")
                   and not st.name.startswith("__") and st.name not in known_m.get(c.name, set())
-                  and not st.decorator_list and st.args.args and _simple_helper(st)}
+                  and (not st.decorator_list or _is_static(st)) and (st.args.args or _is_static(st)) and _simple_helper(st)}
             if mh:
                 method_helpers[c.name] = mh
     if not helpers and not method_helpers:
